@@ -8,6 +8,7 @@ mod pep440;
 mod sanitizer;
 mod semver;
 mod wire;
+mod zmodel;
 
 fn main() {
     // a panic in the code under test is data: keep the default hook quiet
@@ -23,6 +24,8 @@ fn main() {
         ("record", "sanitizer") => sanitizer::record(rest),
         ("replay", "calendar") => calendar::replay(rest),
         ("record", "calendar") => calendar::record(rest),
+        ("replay", "zerv") => zmodel::replay(rest),
+        ("record", "zerv") => zmodel::record(rest),
         ("replay", "semver-order") => order::replay("semver", rest),
         ("replay", "pep440-order") => order::replay("pep440", rest),
         ("record", "semver-order") => order::record("semver", rest),
